@@ -419,8 +419,14 @@ func genFragment(rt *rapid.T, p *Profile, cfg *Config) []Step {
 			Step{Op: "Sleep", C: c, Rel: after, P: []int{peer}, N: margin, Life: -1}, data("Send"), data("PeerData"))
 	case "chan":
 		ct := int(cfg.chanTimeout().Seconds())
-		out = append(out, Step{Op: "ChannelBind", C: c, P: []int{peer}, Ch: ch, Life: -1, RespLost: rapid.IntRange(0, 3).Draw(rt, "flost") == 0}, part(ct),
-			Step{Op: "ChannelBind", C: c, P: []int{peer}, Ch: ch, Life: -1},
+		out = append(out, Step{Op: "ChannelBind", C: c, P: []int{peer}, Ch: ch, Life: -1, RespLost: rapid.IntRange(0, 3).Draw(rt, "flost") == 0})
+		if rapid.IntRange(0, 2).Draw(rt, "fchanTie") == 0 {
+			// the bound peer talks, then the refresh arrives at the very instant the binding expires
+			out = append(out, data("PeerData"), Step{Op: "ChannelBind", C: c, P: []int{peer}, Ch: ch, Life: -1, Rel: "tie"})
+		} else {
+			out = append(out, part(ct), Step{Op: "ChannelBind", C: c, P: []int{peer}, Ch: ch, Life: -1})
+		}
+		out = append(out,
 			Step{Op: "Sleep", C: c, Rel: "chan-", Ch: ch, P: []int{peer}, N: margin, Life: -1}, data("ChannelData"), data("PeerData"),
 			Step{Op: "Sleep", C: c, Rel: "chan+", Ch: ch, P: []int{peer}, N: margin, Life: -1}, data("ChannelData"), data("PeerData"))
 		if rapid.IntRange(0, 1).Draw(rt, "frebind") == 0 {
